@@ -6,6 +6,7 @@ CONSTANTS
   MaxEnv = 3
   MaxFail = 1
   Blocking = FALSE
+  SafeWatch = TRUE
   Nobody = Nobody
 VIEW view
 INVARIANT Emit
